@@ -54,7 +54,7 @@ EXPECTED_PROBES = ["ndim1", "ndim2", "ndim3", "unset_cell_read", "zero_row_cell"
                    "field_assigned_from_field_view_other_field", "flat_restore",
                    "flat_restore_single_populated_cell", "setter_fields", "setter_units",
                    "rejected_fields_setter_count", "rejected_fields_setter_dup", "rejected_units_setter_count",
-                   "bigint_cells", "cells_float32", "cells_special", "copy_via_deepcopy", "copy_via_pickle"]
+                   "bigint_cells", "cells_float32", "cells_special", "cells_complex", "copy_via_deepcopy", "copy_via_pickle"]
 
 OPS = ["set_cell", "get_cell", "slice_get", "slice_set", "field_op", "flatten", "set_flat", "flat_restore",
        "rename",
@@ -94,7 +94,7 @@ def _gen_create(r):
     if big.chance(0.05):
         nf = big.pick([5, 8, 9, 17])
     return {"op": "create", "how": "from_data" if (ndim == 1 and r.chance(0.4)) else "from_shape",
-            "cells": r.fork("regime").weighted([("mixed", 84), ("bigint", 6), ("float32", 5), ("special", 5)]),
+            "cells": r.fork("regime").weighted([("mixed", 80), ("bigint", 6), ("float32", 5), ("special", 5), ("complex", 4)]),
             "shape": shape, "nf": nf, "named": r.chance(0.6), "units": r.chance(0.5),
             "fill": r.randrange(10 ** 6), "prefill": r.random()}
 
@@ -231,6 +231,8 @@ def _cell(fill, rows, nf):
     a = np.round(g.uniform(-9, 9, (rows, nf)), 3)
     if _REGIME[0] == "float32":
         return a.astype(np.float32)            # every cell single precision
+    if _REGIME[0] == "complex":
+        return a + 1j * np.round(g.uniform(-9, 9, (rows, nf)), 3)     # every cell complex128
     if _REGIME[0] == "special" and a.size:
         a = a.copy()                           # NaN / +-inf / -0.0 among the values
         a.flat[int(fill) % a.size] = [np.nan, np.inf, -np.inf, -0.0][int(fill) % 4]
@@ -295,6 +297,8 @@ def _arr_eq(a, b):
     if a.shape != b.shape:
         return False
     with np.errstate(all="ignore"):
+        if a.dtype.kind == "c" or b.dtype.kind == "c":
+            return a.dtype.kind == b.dtype.kind and bool(np.array_equal(a, b, equal_nan=True))
         if _REGIME[0] == "float32":
             # the class may compute in double precision and keep or narrow the result: values are
             # compared to single-precision accuracy (dtype width is not part of the property)
@@ -430,8 +434,10 @@ def run(plan):
                 viol("flatten_raised", f"{slot}.flatten() raised {e!r}", "flatten_raised:" + sig)
                 raise _Stop()
             mf = m.flatten()
-            if np.asarray(fl).dtype.kind in "iu" and mf.dtype.kind in "iu":
-                flat_ok = np.asarray(fl).shape == mf.shape and bool(np.array_equal(np.asarray(fl), mf))
+            if (np.asarray(fl).dtype.kind in "iu" and mf.dtype.kind in "iu") or "c" in (
+                    np.asarray(fl).dtype.kind, mf.dtype.kind):
+                flat_ok = np.asarray(fl).shape == mf.shape and bool(
+                    np.array_equal(np.asarray(fl), mf, equal_nan=True))
             else:
                 flat_ok = _arr_eq(np.asarray(fl, dtype=float), mf)
             if not flat_ok:
@@ -440,8 +446,10 @@ def run(plan):
             for j, f in enumerate(m.fields):
                 ff = v[f].flatten()
                 col = mf[:, j] if mf.size else np.empty((0,))
-                if np.asarray(ff).dtype.kind in "iu" and col.dtype.kind in "iu":
-                    col_ok = np.asarray(ff).shape == col.shape and bool(np.array_equal(np.asarray(ff), col))
+                if (np.asarray(ff).dtype.kind in "iu" and col.dtype.kind in "iu") or "c" in (
+                        np.asarray(ff).dtype.kind, col.dtype.kind):
+                    col_ok = np.asarray(ff).shape == col.shape and bool(
+                        np.array_equal(np.asarray(ff), col, equal_nan=True))
                 else:
                     col_ok = _arr_eq(np.asarray(ff, dtype=float), col)
                 if not col_ok:
@@ -624,6 +632,8 @@ def run(plan):
                 sym = op["sym"]
                 ints = [c for c in m.cells.values() if c is not None and c.dtype.kind in "iu"
                         and c.size]
+                if _REGIME[0] == "complex" and sym in ("//", "%", "**"):
+                    continue       # not defined (or branch-cut sensitive) for complex values
                 if big:
                     # exact integer arithmetic only (no float operand, no overflow)
                     if sym not in ("+", "-") or x != int(x):
@@ -690,7 +700,8 @@ def run(plan):
                         rhs = vals.tolist()
                     elif src in ("view_same", "view_other") and tot:
                         gj = op["fill"] % m.nf
-                        vals = np.asarray(m.flatten()[:, gj]).copy() if big else np.asarray(
+                        vals = np.asarray(m.flatten()[:, gj]).copy() if (
+                            big or _REGIME[0] == "complex") else np.asarray(
                             m.flatten()[:, gj], dtype=float).copy()
                         holder = v if src == "view_same" else v.copy()
                         rhs = holder[m.fields[gj]]
